@@ -949,6 +949,20 @@ fn make_completion(d: &mut Dec, ctx: &mut Ctx) -> Value {
         if d.bool() || sites.is_empty() {
             if let (false, Some(ml)) = (names.is_empty(), main_line) {
                 let recv = names[d.below(names.len())].clone();
+                // items of the entry package whose names merely START with the name of an imported
+                // package are not members of that package
+                if imports_of(&text).contains(&recv) && d.chance(140) {
+                    let extra = format!("\nenum {recv}Kind {{\n    Flat{recv},\n}}\n\nstruct {recv}Stats {{\n    n: int32,\n}}\n\nfn {recv}helper() -> int32 {{\n    1\n}}\n");
+                    let text2 = format!("{text}{extra}");
+                    let mut fs = pc.files.clone();
+                    for (p, t) in fs.iter_mut() {
+                        if p == "main.gom" {
+                            *t = text2.clone();
+                        }
+                    }
+                    return json!({"kind":"completion","mode":"colon","text":text2,"files":goml::files_to_json(&fs),"after_line":ml,"indent":4,"recv":recv,"prefix":"",
+                                  "form": if d.bool() { "let" } else { "bare" }, "source":"project-prefix-twins"});
+                }
                 return json!({"kind":"completion","mode":"colon","text":text,"files":files,"after_line":ml,"indent":4,"recv":recv,"prefix":"",
                               "form": if d.bool() { "let" } else { "bare" }, "source":"project"});
             }
